@@ -200,7 +200,20 @@ class Module:
         return look
 
     def fold(self, e, scope='', env=None):
-        """constant folding of an expression in class scope `scope` ('' = module)"""
+        """constant folding of an expression in class scope `scope` ('' = module); falls back to the pure-expression
+        evaluator (comprehensions, str.format with keywords, string.* ...)"""
+        try:
+            return self._fold(e, scope, env)
+        except Unfoldable as u:
+            from . import consteval
+            try:
+                return consteval.evaluate(e, self._const_lookup(scope), env)
+            except consteval.NotConstant:
+                raise u
+            except RecursionError:
+                raise u
+
+    def _fold(self, e, scope='', env=None):
         if isinstance(e, ast.Constant):
             return e.value
         if isinstance(e, ast.Name):
